@@ -77,6 +77,9 @@ func C01(c *core.Ctx) {
 		pubr("B", "a/b", 0, 0, "r1"), pubr("B", "a/b", 1, 35, ""),
 		// '$' is an ordinary character below the first level
 		pub("B", "a/$x", 1, 36, "dollar-level"),
+		// a PUBLISH the broker sees for the first time although its DUP flag is set (the
+		// original was lost on the way): forwarded like any other, also to QoS 0 subscriptions
+		{Kind: "pub", Client: "B", Topic: "a/b", QoS: 1, ID: 37, Payload: "dup-first-seen", Dup: true},
 		// one UNSUBSCRIBE with several filters, held ones last
 		{Kind: "unsub", Client: "A", ID: 19, Filters: []string{"q/1", "q/2", "q/3", "a/+", "#"}},
 	}
